@@ -252,6 +252,7 @@ def run_C16(ctx, R):
     cli.rule_cli_pats(ctx, R)
     cli.rule_cli_lines(ctx, R)
     cli.rule_cli_print(ctx, R)
+    cli.rule_cli_hl2(ctx, R)
     search.rule_iter_standard(ctx, R, kinds=("find", "nosuffix"), rules={"ITER-OUT", "ITER-HEAD", "LAZY-END", "ITER-STATE", "ITER-LABEL", "ITER-ONE"})
     # the line filter / interval union rest on the standard automaton being right (C02/C05's construction clauses)
     E = Env(ctx, R)
